@@ -26,6 +26,75 @@ type Scn struct {
 	Run func(ch vrt.Chooser, trace bool) *ScnResult
 }
 
+// legacyTwin runs the same scenario under the legacy timer-channel semantics (a tick that was
+// already delivered to the channel survives Stop/Reset). corebgp's go.mod says go 1.21, so which
+// semantics a user gets depends on the go line of the program that imports it: both must hold.
+func legacyTwin(s *Scn) *Scn {
+	t := *s
+	t.Name = s.Name + "@legacy"
+	t.Run = func(ch vrt.Chooser, trace bool) *ScnResult {
+		vrt.LegacyOverride = true
+		defer func() { vrt.LegacyOverride = false }()
+		return s.Run(ch, trace)
+	}
+	return &t
+}
+
+// slowTwin runs the same scenario with the n-th invocation of one plugin callback kind taking d of
+// virtual time (world.SlowCallback).
+func slowTwin(s *Scn, kind string, n int, d time.Duration) *Scn {
+	t := *s
+	t.Name = fmt.Sprintf("%s@slow:%s:%d:%d", s.Name, kind, n, d/time.Millisecond)
+	t.Run = func(ch vrt.Chooser, trace bool) *ScnResult {
+		world.SlowCallback.Kind, world.SlowCallback.N, world.SlowCallback.D = kind, n, d
+		defer func() { world.SlowCallback.Kind = "" }()
+		return s.Run(ch, trace)
+	}
+	return &t
+}
+
+// twinOf rebuilds a twin from the suffix of its name ("" = s itself).
+func twinOf(s *Scn, suffix string) *Scn {
+	switch {
+	case suffix == "":
+		return s
+	case suffix == "legacy":
+		return legacyTwin(s)
+	case strings.HasPrefix(suffix, "slow:"):
+		var kind string
+		var n, ms int
+		parts := strings.Split(suffix, ":")
+		if len(parts) != 4 {
+			return nil
+		}
+		kind = parts[1]
+		fmt.Sscanf(parts[2], "%d", &n)
+		fmt.Sscanf(parts[3], "%d", &ms)
+		return slowTwin(s, kind, n, time.Duration(ms)*time.Millisecond)
+	}
+	return nil
+}
+
+// legacyEvery: quick tiers twin every n-th scenario, thorough tiers every second one.
+func legacyEvery(thorough bool, quick int) int {
+	if thorough {
+		return 2
+	}
+	return quick
+}
+
+// withLegacy appends the legacy twin of every every-th scenario (every <= 1: of all).
+func withLegacy(scns []*Scn, every int) []*Scn {
+	out := scns
+	for i, s := range scns {
+		if every > 1 && i%every != every/2 {
+			continue
+		}
+		out = append(out, legacyTwin(s))
+	}
+	return out
+}
+
 // ScnResult is the judged outcome of one execution.
 type ScnResult struct {
 	R       *vrt.Result
@@ -197,7 +266,11 @@ func scnReplay(prop string, lookup func(name string) *Scn) func(c *harness.Ctx, 
 		if err := json.Unmarshal(raw, &r); err != nil {
 			panic(err)
 		}
-		s := lookup(r.Scenario)
+		base, suffix, _ := strings.Cut(r.Scenario, "@")
+		s := lookup(base)
+		if s != nil {
+			s = twinOf(s, suffix)
+		}
 		if s == nil {
 			fmt.Fprintln(os.Stderr, "ENGINE-ERROR unknown scenario", r.Scenario)
 			os.Exit(3)
